@@ -211,6 +211,32 @@ CHECKS = {
         technique='Coq proof (check_dataframe_spec iff, copy_passes, difference_fails) + extracted-model correspondence + '
                   'verdict oracle over mutation kinds and entry points',
         design='7 C05'),
+    'C11': dict(
+        text='Theorems over models of the logic core of gentest: the date detector gives an exact verdict for every number '
+             'triple (no ValueError path), quote_raw writes every $-terminated pattern as a raw literal that the Python lexer '
+             'reads back as that pattern, no two generated tests share a name or take a fixed test\'s name, every generated '
+             'check passes when the command behaves as it did (for every derived ignore-substring set, via the C04 theorems), '
+             'and generation deletes only files inside the reference directory and the old script. The real tdda gentest is run '
+             'on generated deterministic commands in sandbox directories: generation must succeed, the script must compile and '
+             'pass straight afterwards, and every pre-existing file must survive unchanged; the model layers are compared with '
+             'is_date_like, quote_raw (+ CPython\'s literal evaluation) and TestGenerator.test_name.',
+        note='partial: process execution, chardet file typing, ctime snapshots and the file system are observed by the harness, '
+             'not modelled; the repr() fallback of quote_raw and the host/user/date substring discovery are exercised, not proved.',
+        technique='Coq proof (date detector spec, raw-literal round trip, distinct test names, unchanged-passes via C04) + '
+                  'model/implementation correspondence on the unit layers + sandboxed end-to-end gentest runs',
+        design='7 C11'),
+    'C12': dict(
+        text='Theorems over the model of the generated test (exit status, stdout, stderr and one text/binary check per output '
+             'file, with the exclusions generated for a repeatable command): a different exit status, an unexcused change of a '
+             'stream or text file (different line count, or a line differing from a reference line that holds no generated '
+             'ignore-substring), any different byte of a binary file and a missing file each fail the check of exactly that '
+             'aspect, and all checks whose inputs did not change still pass. After real gentest runs the command is rewritten to '
+             'change one aspect at a time and the generated script is re-run: the failing tests must be exactly the test of that '
+             'aspect; the extracted model, given the substrings found in the script, predicts every test outcome.',
+        note='partial: as C11 (process execution, file typing and unittest are observed, not modelled).',
+        technique='Coq proof (changed_* theorems via the C04 unexcused/length theorems, unaffected checks pass) + extracted-model '
+                  'prediction of every generated test outcome + sandboxed end-to-end mutation runs',
+        design='7 C12'),
 }
 
 NOT_YET = {}
